@@ -1,10 +1,10 @@
 package rules
 
 import (
-	"sort"
 	"fmt"
 	"go/token"
 	"go/types"
+	"sort"
 	"strings"
 
 	"argverif/internal/core"
